@@ -39,15 +39,19 @@ TRUSTED_EXTRA = ["symbolic tracer for clip / extend_to_size (harness/props/c08.p
 
 MANIFEST = {
     "text": "Lean 4 theorems (all interval lists, all sizes): merge_intervals (vectorised model proved equal to a recursive one) "
-            "covers exactly the covered bases (d=0), contains every covered base, has tight endpoints, bridges only gaps <= d and "
-            "separates outputs by > d; get_boolean_mask expands (xor-accumulate) to cov>0 at every base; the contingency table, "
-            "unique_intersect are the per-base values; sort_intervals is a permutation ordered by (chromosome, start, stop); clip "
-            "and extend_to_size kernels, re-traced from the source on every run into Gen/C08.lean, stay inside the contig (omega). "
+            "covers exactly the covered bases (d=0), contains every covered base, has input endpoints, tight non-empty runs, "
+            "bridges only gaps <= d, separates outputs by > d and returns them in order; get_boolean_mask builds a well-formed "
+            "run-length array whose xor-accumulate expansion is cov>0 at every base (toArray_dense + from_intervals + merge); the "
+            "in-repo event pileup (bedgraph.get_pileup: sort endpoints, +-1, cumsum, drop duplicates) is well formed and equals the "
+            "per-base count; the contingency table and unique_intersect are the per-base values; sort_intervals is a permutation "
+            "ordered by (chromosome, start, stop) (refutation of the shipped lexsort rule kept); clip and extend_to_size kernels, "
+            "re-traced from the source on every run into Gen/C08.lean, stay inside the contig and have the stated lengths (omega). "
             "Correspondence: implementation vs Lean model vs Lean spec vs Python per-base oracle on every multiset of <= 3 "
-            "intervals on contigs <= 6 and pairs of such sets.",
-    "note": "count_overlap / intersect formulas are modelled and corresponded on internally non-overlapping operands (domain "
-            "restriction stated in assumptions); the exported get_pileup's counting engine is npstructures (specified); float "
-            "division compared bitwise.",
+            "intervals on contigs <= 6, pairs of such sets, every merge distance.",
+    "note": "count_overlap / intersect formulas are modelled and corresponded (not proved) on internally non-overlapping operands "
+            "(domain restriction stated in assumptions, with a Lean counter-example for a nested operand); the exported get_pileup's "
+            "counting engine is npstructures (specified); Jaccard/Forbes float division compared bitwise. Known finding: "
+            "jaccard() with an entirely empty operand raises ValueError in streams.groupby.",
     "technique": "Lean 4 proof over an executable model + kernels traced from source; differential correspondence with the implementation",
     "design": "§6 C08",
 }
